@@ -1080,9 +1080,10 @@ impl WorldD {
         }
         if now < p.desc.timeout_ts_nanos && rng.chance(1, 6) {
             // let it time out: jump the clock onto / around the deadline
-            let d = (p.desc.timeout_ts_nanos - now) / 1_000_000_000;
-            let dt = (d + rng.below(3)).saturating_sub(1).max(1);
-            return Step::Block { dh: 1, dt };
+            if let Some((dt, dn)) = crate::util::jump_around(rng, now, p.desc.timeout_ts_nanos) {
+                return Step::Block { dh: 1, dt, dn };
+            }
+            return Step::Block { dh: 1, dt: 1, dn: 0 };
         }
         let ok = rng.chance(3, 5);
         Step::Ibc { msg: IbcSudo::Ack { ack: if ok { ack_ok() } else { ack_err() }, packet: p.desc }, fault }
@@ -1267,7 +1268,7 @@ impl World for WorldD {
 
     fn gen_step(&mut self, rng: &mut Rng) -> Step {
         if !self.ics_ok {
-            return Step::Block { dh: 1, dt: self.cfg.spb };
+            return Step::Block { dh: 1, dt: self.cfg.spb, dn: 0 };
         }
         // transfer, receive, settle, gov, migrate, block
         let w: [u32; 6] = match self.cfg.profile.as_str() {
@@ -1287,7 +1288,7 @@ impl World for WorldD {
             }
             _ => {
                 let dh = *rng.pick(&[1u64, 1, 1, 2, 5, 100]);
-                Step::Block { dh, dt: dh.saturating_mul(self.cfg.spb) }
+                Step::Block { dh, dt: dh.saturating_mul(self.cfg.spb), dn: crate::util::subsecond(rng) }
             }
         }
     }
@@ -1312,8 +1313,8 @@ impl World for WorldD {
                 }
             }
             Step::Ibc { msg, fault } => self.apply_ibc(msg, fault, out),
-            Step::Block { dh, dt } => {
-                self.chain.advance(*dh, *dt);
+            Step::Block { dh, dt, dn } => {
+                self.chain.advance_ns(*dh, *dt, *dn);
                 self.meter.sim_blocks += dh;
                 self.meter.sim_seconds += dt;
             }
